@@ -31,6 +31,12 @@ pub enum Step {
     GapSecs(u64),
     Full,
     Incr(ParentSel),
+    /// the process dies `back` storage effects before the end of everything written so far (never before the latest
+    /// backup); `torn` > 0 additionally keeps that many bytes of the write it dies in. With `cold_backup` a full backup
+    /// of the directory is taken while the engine is still down. Then the engine is started again.
+    Crash { back: u32, torn: u32, cold_backup: bool },
+    /// an operation during which storage calls fail as listed
+    FaultyOp(OpK, Vec<crate::c03::RuleSpec>),
 }
 
 #[derive(Clone, Debug, PartialEq, Serialize, Deserialize)]
@@ -116,8 +122,28 @@ pub fn gen_plan(seed: u64, run: u64, tier: &str) -> Plan {
             Step::Op(OpK::UpdateMeta { id, meta: gen_meta(&mut rng, w), merge: rng.chance(1, 2) })
         } else if r < 64 {
             Step::Op(OpK::Snapshot)
-        } else if r < 70 {
+        } else if r < 68 {
             Step::Op(OpK::Restart)
+        } else if r < 71 {
+            // crash points are aimed at the multi-file procedures: put one right before the crash most of the time
+            match rng.below(4) {
+                0 => steps.push(Step::Op(OpK::Snapshot)),
+                1 => steps.push(Step::Op(OpK::Restart)),
+                2 => {
+                    w += 1;
+                    steps.push(Step::Op(OpK::Insert { id, vec: bits(&gen_vector(&mut rng, cfg.dim, w)), meta: gen_meta(&mut rng, w) }));
+                }
+                _ => {}
+            }
+            Step::Crash { back: if rng.chance(1, 5) { 0 } else { rng.range(1, 24) as u32 }, torn: if rng.chance(1, 4) { rng.range(1, 40) as u32 } else { 0 }, cold_backup: rng.chance(1, 2) }
+        } else if r < 74 {
+            w += 1;
+            let op = match rng.below(5) {
+                0 => OpK::Snapshot,
+                1 => OpK::Delete { id },
+                _ => OpK::Insert { id, vec: bits(&gen_vector(&mut rng, cfg.dim, w)), meta: gen_meta(&mut rng, w) },
+            };
+            Step::FaultyOp(op, crate::c03::gen_faults(&mut rng))
         } else if r < 80 {
             Step::GapSecs(*rng.pick(&[0u64, 1, 1, 2, 5, 3600]))
         } else if r < 88 || !have_backup {
@@ -152,6 +178,55 @@ fn dir_files(d: &str) -> BTreeMap<String, Vec<u8>> {
     m
 }
 
+fn debug_dump(tag: &str, data: &str, meta: Option<&BackupMetadata>) {
+    if std::env::var("VSIM_DEBUG").is_err() {
+        return;
+    }
+    let files = dir_files(data);
+    eprintln!("--- {} now={}s", tag, (simlibc::clock_now_ns() - simlibc::EPOCH_NS) / 1_000_000_000);
+    for (n, b) in &files {
+        let mt = std::fs::metadata(format!("{}/{}", data, n)).ok().and_then(|m| m.modified().ok()).and_then(|t| t.duration_since(std::time::UNIX_EPOCH).ok()).map(|d| d.as_secs() as i64 - (simlibc::EPOCH_NS / 1_000_000_000) as i64);
+        eprintln!("    {} {} bytes mtime={:?}", n, b.len(), mt);
+        if n == "MANIFEST" {
+            eprintln!("      {}", String::from_utf8_lossy(b).replace('\n', " "));
+        }
+    }
+    if let Some(m) = meta {
+        eprintln!("    backup: {:?}", m);
+    }
+}
+
+fn set_mtime(path: &str, ns: u64) {
+    let _b = simlibc::Bypass::new();
+    if let Ok(c) = std::ffi::CString::new(path) {
+        let ts = libc::timespec { tv_sec: (ns / 1_000_000_000) as i64, tv_nsec: (ns % 1_000_000_000) as i64 };
+        let arr = [ts, ts];
+        unsafe { libc::utimensat(libc::AT_FDCWD, c.as_ptr(), arr.as_ptr(), 0) };
+    }
+}
+
+/// The collection a start from a copy of `data` gives (None when it does not start).
+fn restart_census_of_copy(cfg: &Cfg, data: &str, scratch: &str, universe: u64) -> Option<Census> {
+    let files = dir_files(data);
+    mkdir(scratch);
+    {
+        let _b = simlibc::Bypass::new();
+        for (n, bytes) in &files {
+            let _ = std::fs::write(format!("{}/{}", scratch, n), bytes);
+        }
+    }
+    let r = match catch_unwind(AssertUnwindSafe(|| Eng::recover(cfg, scratch))) {
+        Ok(Ok(e)) => {
+            let c = census(e.backend(), universe);
+            drop(e);
+            Some(c)
+        }
+        _ => None,
+    };
+    remove_dir(scratch);
+    r
+}
+
 fn mkdir(d: &str) {
     let _b = simlibc::Bypass::new();
     let _ = std::fs::remove_dir_all(d);
@@ -172,6 +247,9 @@ struct BkRec {
     /// `latest_snapshot` of the data directory's MANIFEST when the backup was taken
     manifest_snapshot: Option<String>,
     expected: Census,
+    /// histories with a failed storage call only: the collection a restart of the source directory would give at
+    /// backup time (a failed write may legitimately be present or absent in the log; C03 judges that)
+    expected_alt: Option<Census>,
     parent: Option<usize>,
     /// activity between the parent backup (or the start) and this backup
     snapshot_since_parent: bool,
@@ -260,7 +338,11 @@ pub fn execute(plan: &Plan) -> Exec {
         let bk = format!("{}/backups", base);
         mkdir(&data);
         mkdir(&bk);
-        let root = simlibc::register_root(&data, None, false);
+        // journaled, so that a crash step can rebuild the directory as of any earlier storage effect
+        let mut root = simlibc::register_root(&data, None, true);
+        let mut base_img = simlibc::FsImage::default();
+        let mut floor = 0usize; // journal length at the latest backup: crashes never rewind past a backup
+        let mut faulted = false; // a storage call has failed in this history
         simlibc::stamp_mtime_enable(true);
         // start a little after the epoch second boundary is irrelevant; advance so that timestamps are > 0 relative
         let mut pr = |ex: &mut Exec, k: &str| *ex.probes.entry(k.to_string()).or_insert(0) += 1;
@@ -282,6 +364,96 @@ pub fn execute(plan: &Plan) -> Exec {
                         Ok(Ok(e2)) => eng = Some(e2),
                         _ => {
                             pr(&mut ex, "history_abandoned_restart_failed");
+                            break;
+                        }
+                    }
+                    restart_since = true;
+                    for a in activity.values_mut() {
+                        a.1 = true;
+                    }
+                }
+                Step::FaultyOp(op, faults) => {
+                    simlibc::arm_faults(faults.iter().map(crate::c03::to_rule).collect());
+                    let ok = matches!(catch_unwind(AssertUnwindSafe(|| e.apply(op))), Ok(Ok(())));
+                    let fired = simlibc::disarm_faults().iter().filter(|f| f.fired).count();
+                    if fired > 0 {
+                        faulted = true;
+                        *ex.faults.entry(format!("storage_fault_during_{}", op.name())).or_insert(0) += 1;
+                        pr(&mut ex, if ok { "operation_succeeded_despite_storage_fault" } else { "operation_failed_under_storage_fault" });
+                    }
+                    if matches!(op, OpK::Snapshot) {
+                        for a in activity.values_mut() {
+                            a.0 = true;
+                        }
+                    } else {
+                        for a in activity.values_mut() {
+                            a.2 += 1;
+                        }
+                    }
+                }
+                Step::Crash { back, torn, cold_backup } => {
+                    let j = simlibc::journal_snapshot(root);
+                    let times = simlibc::journal_times(root);
+                    let i = j.len().saturating_sub(*back as usize).max(floor).min(j.len());
+                    drop(eng.take());
+                    simlibc::unregister_root(root);
+                    let variant = match j.get(i) {
+                        Some(simlibc::Effect::Write { data: d, .. }) if *torn > 0 && d.len() > 1 => crate::crash::Variant::Torn { keep: 1 + (*torn as usize - 1) % (d.len() - 1) },
+                        _ => crate::crash::Variant::Kill,
+                    };
+                    *ex.faults.entry(format!("crash_{}", variant.name())).or_insert(0) += 1;
+                    if i < j.len() {
+                        pr(&mut ex, "crash_inside_a_procedure");
+                    }
+                    let img = crate::crash::image_at(&base_img, &j, i, &variant);
+                    mkdir(&data);
+                    img.dump(&data);
+                    // file times as of the last effect on each file before the crash point
+                    let mut last: BTreeMap<u64, u64> = BTreeMap::new();
+                    for (k, e2) in j.iter().enumerate().take(i + 1) {
+                        match e2 {
+                            simlibc::Effect::Create { ino, .. } | simlibc::Effect::Write { ino, .. } | simlibc::Effect::Trunc { ino, .. } => {
+                                last.insert(*ino, times.get(k).copied().unwrap_or(0));
+                            }
+                            _ => {}
+                        }
+                    }
+                    for (name, ino) in &img.names {
+                        if let Some(t) = last.get(ino) {
+                            set_mtime(&format!("{}/{}", data, name), *t);
+                        }
+                    }
+                    base_img = img.clone();
+                    root = simlibc::register_root(&data, Some(&img), true);
+                    floor = 0;
+                    // a backup of the directory as the crash left it
+                    let mut pending: Option<(BackupMetadata, Option<String>)> = None;
+                    if *cold_backup {
+                        if let Ok(bm) = BackupManager::new(&bk, &data) {
+                            match catch_unwind(AssertUnwindSafe(|| bm.create_full_backup(format!("cold full #{}", backups.len())))) {
+                                Ok(Ok(meta)) => pending = Some((meta, manifest_snapshot(&data))),
+                                Ok(Err(_)) => pr(&mut ex, "backup_of_crashed_directory_refused"),
+                                Err(_) => {
+                                    ex.problems.push(prob("backup_panicked", "create_full_backup on a directory left by a crash panicked".into(), &[("backup", "full_of_crashed_directory")]));
+                                    break;
+                                }
+                            }
+                        }
+                    }
+                    match catch_unwind(AssertUnwindSafe(|| Eng::recover(&p.cfg, &data))) {
+                        Ok(Ok(e2)) => {
+                            if let Some((meta, ms)) = pending {
+                                // the collection of that backup is what the directory holds: what a start from it gives
+                                let expected = census(e2.backend(), p.universe);
+                                digest = crate::rng::mix(digest, (expected.docs.len() as u64 + 1) << 16);
+                                activity.insert(backups.len(), (false, true, 0));
+                                backups.push(BkRec { meta, manifest_snapshot: ms, expected, expected_alt: None, parent: None, snapshot_since_parent: snap_since, restart_since_parent: true, writes_since_parent: writes_since });
+                                pr(&mut ex, "full_backups_of_crashed_directory");
+                            }
+                            eng = Some(e2);
+                        }
+                        _ => {
+                            pr(&mut ex, "history_abandoned_start_after_crash_failed");
                             break;
                         }
                     }
@@ -316,7 +488,10 @@ pub fn execute(plan: &Plan) -> Exec {
                             let expected = census(e.backend(), p.universe);
                             digest = crate::rng::mix(digest, expected.docs.len() as u64 + 1);
                             activity.insert(backups.len(), (false, false, 0));
-                            backups.push(BkRec { meta, manifest_snapshot: manifest_snapshot(&data), expected, parent: None, snapshot_since_parent: snap_since, restart_since_parent: restart_since, writes_since_parent: writes_since });
+                            floor = simlibc::journal_len(root);
+                            debug_dump("full backup", &data, Some(&meta));
+                            let expected_alt = if faulted { restart_census_of_copy(&p.cfg, &data, &format!("{}/alt", base), p.universe) } else { None };
+                            backups.push(BkRec { meta, manifest_snapshot: manifest_snapshot(&data), expected, expected_alt, parent: None, snapshot_since_parent: snap_since, restart_since_parent: restart_since, writes_since_parent: writes_since });
                             pr(&mut ex, "full_backups");
                         }
                         Ok(Err(err)) => {
@@ -352,7 +527,10 @@ pub fn execute(plan: &Plan) -> Exec {
                             // automatic snapshots (snapshot interval) count as well as explicit ones
                             act.0 = act.0 || ms != backups[parent].manifest_snapshot;
                             activity.insert(backups.len(), (false, false, 0));
-                            backups.push(BkRec { meta, manifest_snapshot: ms, expected, parent: Some(parent), snapshot_since_parent: act.0, restart_since_parent: act.1, writes_since_parent: act.2 });
+                            floor = simlibc::journal_len(root);
+                            debug_dump("incremental backup", &data, Some(&meta));
+                            let expected_alt = if faulted { restart_census_of_copy(&p.cfg, &data, &format!("{}/alt", base), p.universe) } else { None };
+                            backups.push(BkRec { meta, manifest_snapshot: ms, expected, expected_alt, parent: Some(parent), snapshot_since_parent: act.0, restart_since_parent: act.1, writes_since_parent: act.2 });
                             pr(&mut ex, "incremental_backups");
                             if act.0 {
                                 pr(&mut ex, "incremental_after_snapshot_and_compaction");
@@ -406,7 +584,7 @@ pub fn execute(plan: &Plan) -> Exec {
             let facts_owned = [("backup", kind_of(b)), ("snapshot_since_parent", yn(b.snapshot_since_parent && b.parent.is_some())), ("restart_since_parent", yn(b.restart_since_parent && b.parent.is_some()))];
             match restore_and_census(&p.cfg, &bk, &target, p.universe, &|rm| rm.restore_from_backup(id)) {
                 Ok(c) => {
-                    if c != b.expected {
+                    if c != b.expected && Some(&c) != b.expected_alt.as_ref() {
                         ex.problems.push(prob(
                             "restored_collection_differs",
                             format!("backup #{} ({}, parent {:?}, {} writes since parent): collection started from the restored directory differs from the collection at backup time: {}", i, kind_of(b), b.parent, b.writes_since_parent, census_diff(&b.expected, &c)),
@@ -465,7 +643,7 @@ pub fn execute(plan: &Plan) -> Exec {
                         }
                         match res {
                             Ok(c) => {
-                                if !acceptable.iter().any(|i| backups[*i].expected == c) {
+                                if !acceptable.iter().any(|i| backups[*i].expected == c || backups[*i].expected_alt.as_ref() == Some(&c)) {
                                     let best = acceptable.last().cloned().unwrap_or(0);
                                     ex.problems.push(prob(
                                         "pitr_collection_differs",
@@ -578,7 +756,7 @@ pub fn execute(plan: &Plan) -> Exec {
                             ex.problems.push(prob("damaged_backup_accepted", format!("{} of {} ({}): restore reported success but the engine does not start from the restored directory: {}", what, f_role(&f), region, m), &[("file", file_kind), ("region", &region), ("outcome", "does_not_start")]));
                         }
                         Ok(c) => {
-                            if c != backups[victim].expected {
+                            if c != backups[victim].expected && Some(&c) != backups[victim].expected_alt.as_ref() {
                                 ex.problems.push(prob("damaged_backup_accepted", format!("{} of {} ({}): restore succeeded and the started collection differs from the backup's: {}", what, f_role(&f), region, census_diff(&backups[victim].expected, &c)), &[("file", file_kind), ("region", &region), ("outcome", "different_collection")]));
                             } else {
                                 *ex.probes.entry("damage_harmless_restore_equal".into()).or_insert(0) += 1;
